@@ -144,9 +144,15 @@ func runProperty(c *Ctx, p *Property) *RunResult {
 		}()
 		// de-duplicate keys deterministically (same construct reached twice keeps the worst status)
 		res.RuleCounts[rule.ID] = len(r.obs)
-		if len(r.obs) < rule.Floor {
-			res.Vacuous = append(res.Vacuous, fmt.Sprintf("%s: %d obligations < floor %d", rule.ID, len(r.obs), rule.Floor))
-			r.add("vacuous", token.NoPos, Violated, fmt.Sprintf("rule formed %d obligations, fewer than the floor %d confirmed by reading: the rule no longer matches the code it was written for", len(r.obs), rule.Floor))
+		// Floor is the number of obligations confirmed by reading on the pinned tree. Merging duplicated code into a helper
+		// legitimately lowers the count, so the vacuity alarm is raised only when fewer than 60% of them are formed.
+		eff := (rule.Floor*3 + 4) / 5
+		if rule.Floor > 0 && eff < 1 {
+			eff = 1
+		}
+		if len(r.obs) < eff {
+			res.Vacuous = append(res.Vacuous, fmt.Sprintf("%s: %d obligations < floor %d", rule.ID, len(r.obs), eff))
+			r.add("vacuous", token.NoPos, Violated, fmt.Sprintf("rule formed %d obligations, fewer than 60%% (%d) of the %d confirmed by reading: the rule no longer matches the code it was written for", len(r.obs), eff, rule.Floor))
 		}
 		res.Obs = append(res.Obs, r.obs...)
 	}
